@@ -20,12 +20,13 @@ using namespace sim;
 namespace sf {
 
 enum { MAXSLOT = 40, NKEY = 2 };
-enum OpKind { O_ADD_FILTER = 1, O_REMOVE_FILTER = 2, O_ADD_LISTENER = 3, O_REMOVE_LISTENER = 4, O_DISPATCH = 5, O_QDISPATCH = 6, O_SET_MIX = 7, O_KINDS = 8 };
+enum OpKind { O_ADD_FILTER = 1, O_REMOVE_FILTER = 2, O_ADD_LISTENER = 3, O_REMOVE_LISTENER = 4, O_DISPATCH = 5, O_QDISPATCH = 6, O_SET_MIX = 7, O_COPY = 8, O_COPY_ASSIGN = 9, O_KINDS = 10 };
 // Op fields: d = key.
 //   addFilter: a = id (= slot), b = verdict pattern (bit i = verdict of its i-th call), c = delta | (script << 8): script 0 none, 1 removes itself, 2 + s: removes filter slot s
 //   addListener: a = id (= slot), b = how (0 append, 1 prepend), c = flavour (variant 4: 1 = sets the stop flag; variant 5: 0 plain, 1 conditional, 2 adapted, 3 shared_ptr adapted)
 //   dispatch: a = argument value, b = payload value, c = value category (0 lvalues, 1 temporaries)
 //   setMix: a = which harness mixin (0 before, 1 after the filter mixin), b = its verdict
+//   copy / copyAssign: continue with a copy (copy-constructed / copy-assigned into a fresh object) of the dispatcher; the original is destroyed
 enum { U_VARIANT = 0 };
 enum { V_COUNT = 6 };
 
@@ -54,7 +55,7 @@ extern Sink * g_sink;
 struct Counters
 {
 	uint64_t plans, ops, dispatches, queuedDispatches, filterCalls, filterBlocked, filterModified, filtersRemovedFromFilter, listenerCalls, mixCalls, mixBlocked,
-		stoppedByPolicy, conditionTrue, conditionFalse, adaptedCalls, sharedAdaptedCalls, faultRuns, faultsInjected, faultsByKind[F_KINDS], opsFailedByFault;
+		stoppedByPolicy, conditionTrue, conditionFalse, adaptedCalls, sharedAdaptedCalls, copies, faultRuns, faultsInjected, faultsByKind[F_KINDS], opsFailedByFault;
 	uint64_t perVariant[V_COUNT];
 };
 extern Counters counters;
@@ -296,6 +297,24 @@ struct FilterInterp : Sink
 			break;
 		}
 		case O_SET_MIX: mixVerdict[op.a & 1] = op.b & 1; break;
+		case O_COPY: case O_COPY_ASSIGN: {
+			// C10: a copy holds the same listeners AND filters in the same order and is fully functional; the old handles die with the original
+			D * copy = nullptr;
+			try {
+				FaultArm arm;
+				if(op.k == O_COPY) copy = new D(*disp);
+				else { copy = new D(); *copy = *disp; }
+			}
+			catch(...) { delete copy; throw; }
+			delete disp; disp = copy;
+			++counters.copies;
+			for(int s2 = 0; s2 < MAXSLOT; ++s2) {
+				if(slotKind[s2] == 1) slotKind[s2] = 5;        // filter present in the copy, handle gone
+				else if(slotKind[s2] == 3) slotKind[s2] = 6;   // listener present in the copy, handle gone
+				fhandles[s2] = typename C::FHandle(); lhandles[s2] = typename C::Handle();
+			}
+			break;
+		}
 		case O_DISPATCH: case O_QDISPATCH: {
 			const bool queued = op.k == O_QDISPATCH && C::queue;
 			++counters.dispatches; if(queued) ++counters.queuedDispatches;
@@ -711,7 +730,7 @@ void generate(uint64_t seed, Plan & plan)
 	using namespace sf;
 	Rng rng(seed);
 	plan.setSchedSeed(rng.next());
-	const int variant = (int)rng.below(V_COUNT);
+	const int variant = mode == "c10" ? (int)rng.below(4) : (int)rng.below(V_COUNT);
 	plan.user(U_VARIANT) = variant;
 	plan.tasks.assign(1, OpList());
 	OpList & ops = plan.tasks[0];
@@ -735,6 +754,7 @@ void generate(uint64_t seed, Plan & plan)
 			else if(r < 46 && nextId < MAXSLOT - 2) { const int how = (int)rng.below(2); ops.push_back(Op(O_ADD_LISTENER, nextId, how, 0, k)); known.push_back(nextId++); }
 			else if(r < 52) ops.push_back(Op(O_REMOVE_LISTENER, slot));
 			else if(r < 58 && variant == 1) { const int which = (int)rng.below(2); const int verdict = rng.chance(3, 4) ? 1 : 0; ops.push_back(Op(O_SET_MIX, which, verdict)); }
+			else if(r < 66 && mode == "c10") ops.push_back(Op(rng.chance(1, 2) ? O_COPY : O_COPY_ASSIGN));
 			else { const int a = (int)rng.below(1000); const int pv = (int)rng.below(1000); const int cat = (int)rng.below(2); ops.push_back(Op(rng.chance(1, 2) ? O_DISPATCH : O_QDISPATCH, a, pv, cat, k)); }
 		}
 		else if(variant == 4) {
@@ -768,7 +788,7 @@ std::string describe(const Plan & plan)
 {
 	static const char * vn[] = { "EventDispatcher+MixinFilter", "EventDispatcher+MixinList<MixA,MixinFilter,MixB>", "EventQueue+MixinFilter", "HeterEventDispatcher+MixinHeterFilter",
 		"canContinueInvoking on CallbackList/EventDispatcher", "conditionalFunctor/argumentAdapter listeners" };
-	static const char * names[] = { "?", "addFilter", "removeFilter", "addListener", "removeListener", "dispatch", "queuedDispatch", "setMixinVerdict" };
+	static const char * names[] = { "?", "addFilter", "removeFilter", "addListener", "removeListener", "dispatch", "queuedDispatch", "setMixinVerdict", "continueWithCopy", "continueWithCopyAssigned" };
 	std::ostringstream o;
 	const int v = plan.user(sf::U_VARIANT);
 	o << (v >= 0 && v < sf::V_COUNT ? vn[v] : "?") << " :";
@@ -792,7 +812,7 @@ void statsJson(std::string & out)
 	o << ",\"probes\":{\"ops\":" << c.ops << ",\"dispatches\":" << c.dispatches << ",\"queued_dispatches\":" << c.queuedDispatches << ",\"filter_calls\":" << c.filterCalls << ",\"dispatches_blocked_by_filter\":" << c.filterBlocked
 	  << ",\"filters_that_modified_arguments\":" << c.filterModified << ",\"filters_removed_from_inside_a_filter\":" << c.filtersRemovedFromFilter << ",\"listener_calls\":" << c.listenerCalls
 	  << ",\"harness_mixin_calls\":" << c.mixCalls << ",\"blocked_by_harness_mixin\":" << c.mixBlocked << ",\"invocations_stopped_by_canContinueInvoking\":" << c.stoppedByPolicy
-	  << ",\"condition_true\":" << c.conditionTrue << ",\"condition_false\":" << c.conditionFalse << ",\"adapted_listener_calls\":" << c.adaptedCalls << ",\"shared_ptr_adapted_listener_calls\":" << c.sharedAdaptedCalls << "}"
+	  << ",\"condition_true\":" << c.conditionTrue << ",\"condition_false\":" << c.conditionFalse << ",\"adapted_listener_calls\":" << c.adaptedCalls << ",\"shared_ptr_adapted_listener_calls\":" << c.sharedAdaptedCalls << ",\"dispatcher_copies\":" << c.copies << "}"
 	  << ",\"faults\":{\"fault_runs\":" << c.faultRuns << ",\"injected_total\":" << c.faultsInjected << ",\"alloc\":" << c.faultsByKind[F_ALLOC] << ",\"copy\":" << c.faultsByKind[F_COPY]
 	  << ",\"move\":" << c.faultsByKind[F_MOVE] << ",\"call\":" << c.faultsByKind[F_CALL] << ",\"operations_failed_by_fault\":" << c.opsFailedByFault << "}"
 	  << ",\"per_variant\":[";
